@@ -563,6 +563,11 @@ def run(prog, rep, tier):
     rep.rule('SITE-index-offset', 'in functions with an `i_offset`, every site lookup includes it')
     if check_site_index_offset(prog, rep, ['tenpy/networks/mps.py']) < 2:
         raise AnalysisError('SITE-index-offset: site lookups of _term_to_ops_list not found')
+    from ..flow import check_reindex_congruent
+    rep.rule('REINDEX-congruent', 'parallel per-site containers of an MPS are re-ordered with index '
+             'arrays that agree modulo L')
+    if check_reindex_congruent(prog, rep, ['tenpy/networks/mps.py']) < 1:
+        raise AnalysisError('REINDEX-congruent: roll_mps_unit_cell not recognised')
     from ..flow import check_stale_loop_reads
     rep.rule('LOOP-stale-read', 'no per-item variable is read in a loop before the iteration assigns '
              'it when its only other bindings are inside other loops')
